@@ -117,7 +117,7 @@ def load_specs(spec_dir=None):
                     continue
                 m = re.match(r'(sub|sigsub) (\w+) "(.*)" => "(.*)"$', parts)
                 if m:
-                    unesc = lambda t: t.replace('\\n', '\n')
+                    unesc = lambda t: t.replace('\\n', '\n').replace('\\"', '"')
                     (cur.subs if m.group(1) == 'sub' else cur.sigsubs).append((m.group(2), unesc(m.group(3)), unesc(m.group(4))))
                     continue
                 raise GenError('%s:%d: bad section header %r' % (fn, ln, line))
